@@ -965,16 +965,15 @@ def _run_case(case, rec, checks, tmpdir, opened):
                     #  Askaryan model, whose own failures are C07's subject)
                     vals = np.asarray(sig.values)
                     require(vals.shape == grid.shape, "%s: %d values on %d times", what, len(vals), len(grid))
-                    if True:  # noqa (keeps the block's indentation)
-                        require(not np.any(vals != 0),
-                                "%s: viewing angle %.6f deg is %.6f deg off the Cherenkov angle, beyond "
-                                "offcone_max=%r, but the signal is not empty (max |v| = %r)", what,
-                                math.degrees(en.psi), math.degrees(abs(en.psi - en.theta_c)),
-                                case["offcone_max"], float(np.max(np.abs(vals))))
-                        handed = spy[j]["signal"] if j < len(spy) else None
-                        require(isinstance(handed, EmptySignal) or (
-                            not hasattr(handed, "__len__") and not np.any(np.asarray(handed.values) != 0)),
-                            "%s: off-cone, but the antenna was not handed an empty signal", what)
+                    require(not np.any(vals != 0),
+                            "%s: viewing angle %.6f deg is %.6f deg off the Cherenkov angle, beyond "
+                            "offcone_max=%r, but the signal is not empty (max |v| = %r)", what,
+                            math.degrees(en.psi), math.degrees(abs(en.psi - en.theta_c)),
+                            case["offcone_max"], float(np.max(np.abs(vals))))
+                    handed = spy[j]["signal"] if j < len(spy) else None
+                    require(isinstance(handed, EmptySignal) or (
+                        not hasattr(handed, "__len__") and not np.any(np.asarray(handed.values) != 0)),
+                        "%s: off-cone, but the antenna was not handed an empty signal", what)
                 if "values" in checks and en.cut is not None:
                     ref = reference_signal(case, solver, en, twins[ia], times)
                     try:
@@ -1401,7 +1400,9 @@ PROPERTY = Property(
                  floors={"offcone_cut": 0.1, "oncone": 0.25, "no_solution_antenna": 0.2, "multi_particle": 0.09,
                          "gen=cyl": 0.06, "gen=rect": 0.05, "gen=file": 0.05, "layered": 0.03, "basic": 0.04,
                          "shadowed_then_visible": 0.02, "multi_event": 0.2, "accumulating": 0.07,
-                         "container=detector": 0.08},
+                         "container=detector": 0.08, "specialized": 0.09, "uniform": 0.09,
+                         "model=ARZ": 0.15, "model=AVZ": 0.09, "model=ZHS": 0.07, "model=ARVZ": 0.06,
+                         "writer=file": 0.05, "writer=double": 0.13, "trig=dict": 0.13, "trig=func": 0.06},
                  classify=classify),
         SubCheck("values", values_cases(), make_check("values"), quick=160, thorough=6000, quick_shards=5,
                  rule="list/cylindrical/file generators, 1-2 antennas: every delivered signal recomputed from fresh "
